@@ -10,8 +10,8 @@ from . import common as C
 from .minimise import minimise
 from .pool import Worker, run_parallel
 
-REPLAYS = os.path.join(C.VERIF, "replays")
-EVIDENCE = os.path.join(C.VERIF, "evidence")
+REPLAYS = os.environ.get("VERIF_REPLAYS", os.path.join(C.VERIF, "replays"))
+EVIDENCE = os.environ.get("VERIF_EVIDENCE", os.path.join(C.VERIF, "evidence"))
 FINDINGS = os.path.join(C.VERIF, "known_findings.json")
 
 
@@ -125,7 +125,7 @@ class Check:
                 r.kv["config"] = cfg
                 if is_failure(r):
                     fails.append(r)
-                    return len({result_class(x) for x in fails}) >= 3 or len(fails) >= 12
+                    return len({result_class(x) for x in fails}) >= int(os.environ.get('VERIF_MAX_CLASSES', 3)) or len(fails) >= int(os.environ.get('VERIF_MAX_FAILS', 12))
                 return False
 
             rs = run_parallel(self.exes[cfg], jobs(), nw, deadline=deadline, on_result=on_result)
@@ -191,17 +191,26 @@ class Check:
                 w.close()
 
     def canaries(self):
-        """replay the canary of every open known finding of this property; report it if it still reproduces."""
+        """Open known findings: replay the canary, name the finding if it still reproduces.
+        Fixed findings: their replay files are the regression corpus, executed first; one that fails again
+        is reported as a violation like any other."""
         for f in load_findings():
-            if f.get("property") != self.prop or f.get("status") != "open" or not f.get("replay"):
+            if f.get("property") != self.prop or not f.get("replay"):
                 continue
             path = os.path.join(C.VERIF, f["replay"])
-            rc, rr = replay_file(path, quiet=True, exes=self.exes)
-            if rc == 1:
-                if not any(k is f for k, _ in self.known_seen):
-                    self.known_seen.append((f, result_msg(rr)))
+            if not os.path.exists(path):
+                continue
+            rc, rr = replay_file(path, quiet=True, exes=self.exes, prop=self.prop)
+            if f.get("status") == "open":
+                if rc == 1:
+                    if not any(k is f for k, _ in self.known_seen):
+                        self.known_seen.append((f, result_msg(rr)))
+                else:
+                    C.log("note: canary of %s no longer reproduces (%s)" % (f.get("id"), rr.status if rr else "?"))
             else:
-                C.log("note: canary of %s no longer reproduces (%s)" % (f.get("id"), rr.status if rr else "?"))
+                self.regressions_run = getattr(self, "regressions_run", 0) + 1
+                if rr is not None and is_failure(rr):
+                    self.violations.append((result_class(rr), path, "regression of fixed finding %s: %s" % (f.get("id"), result_msg(rr))))
 
     def evidence(self):
         rs = self.results
@@ -235,6 +244,7 @@ class Check:
                 "probes_and_fault_counts": {k: v for k, v in sorted(counters.items())},
                 "configurations": self.spec["configs"][self.tier], "components": self.spec.get("components", {}),
                 "known_findings_seen": [k.get("id") for k, _ in self.known_seen],
+                "regression_replays_of_fixed_findings_executed": getattr(self, "regressions_run", 0),
                 "build_s": round(getattr(self, "build_s", 0), 1),
             },
             "assumptions": self.spec.get("assumptions", []), "wall_s": round(wall, 1), "violations": len(self.violations),
@@ -252,6 +262,11 @@ class Check:
         for r in self.results:
             st[r.status] = st.get(r.status, 0) + 1
         C.log("%s %s: %d runs %s in %.1fs (build %.1fs)" % (self.prop, self.tier, len(self.results), st, time.time() - self.t0, self.build_s))
+        shown = 0
+        for r in self.results:
+            if r.status not in ("OK", "VIOL") and shown < 5:
+                shown += 1
+                C.log("  note: %s seed=%s config=%s wall_ms=%s" % (r.status, r.cmd[1].get("seed"), r.kv.get("config"), r.wall_ms))
         for k, msg in self.known_seen:
             C.log("KNOWN-FINDING: property=%s %s [%s] %s" % (self.prop, k.get("id"), k.get("class"), k.get("what")))
         if self.machinery_error:
@@ -263,11 +278,11 @@ class Check:
         return 1 if self.violations else 0
 
 
-def replay_file(path, quiet=False, exes=None):
+def replay_file(path, quiet=False, exes=None, prop=None):
     """execute a replay file in a fresh worker process; 1 = reproduces, 0 = does not."""
     from .props import PROPS
     rp = json.load(open(path))
-    prop = rp["property"]
+    prop = prop or rp["property"]
     spec = PROPS[prop]
     cfg = rp.get("config", spec["configs"]["quick"][0])
     exe = (exes or {}).get(cfg) or C.build_engine(spec["engine"], cfg)
@@ -275,6 +290,7 @@ def replay_file(path, quiet=False, exes=None):
     try:
         chk = Check(spec, prop, "quick", 0)
         r = w.run(*chk.exec_job(rp.get("params", {}), rp["ops"], rp.get("exec_extra")))
+        r.kv["config"] = cfg
     finally:
         w.close()
     cls = result_class(r)
